@@ -463,6 +463,8 @@ func c13RunGated(q *c13Query, base int64, expr string, params c13Times, pm *prom
 		}
 		released = append(released, k)
 	}
+	// every expected result is through; jobs the model did not expect (another slicing) must not stay parked
+	g.openAll()
 	select {
 	case rr = <-done:
 	case <-time.After(20 * time.Second):
